@@ -321,6 +321,20 @@ def _script_oracle(props, walk=False):
 
 
 oracle_c08 = _script_oracle(("C08",))
+_oracle_c07_scripts = _script_oracle(("C07", "C08", "C09"))
+
+
+def oracle_c07x(c, a, b):
+    """C07 on `rename` lines; on `script` lines (object-level rename followed by reads) the script oracle"""
+    if c.startswith("script "):
+        r = _oracle_c07_scripts(c, a, b)
+        oracle_c07x.waived = _oracle_c07_scripts.waived
+        return r
+    oracle_c07x.waived = set()
+    return oracle_c07(c, a, b)
+
+
+oracle_c07x.waived = set()
 oracle_c09 = _script_oracle(("C09", "C13"))
 oracle_c10 = _script_oracle(("C10",))
 oracle_c11 = _script_oracle(("C11", "C08", "C09"), walk=True)
@@ -620,8 +634,8 @@ PROPS = {
     "C07": {
         "module": "DnsModel.Theorems.C07",
         "theorems": ["Dns.C07.rename_spec", "Dns.C07.rename_self", "Dns.replaceRaw_spec", "Dns.rename_record"],
-        "families": [{"name": "rename-families", "quick": 0, "thorough": 0, "fixed": True}, {"name": "rename-misaligned", "quick": 0, "thorough": 0, "fixed": True}, {"name": "rename-boundary", "quick": 0, "thorough": 0, "fixed": True}, {"name": "rename", "quick": 1500, "thorough": 75000}],
-        "oracle": oracle_c07,
+        "families": [{"name": "rename-families", "quick": 0, "thorough": 0, "fixed": True}, {"name": "rename-misaligned", "quick": 0, "thorough": 0, "fixed": True}, {"name": "rename-script", "quick": 0, "thorough": 0, "fixed": True}, {"name": "rename-boundary", "quick": 0, "thorough": 0, "fixed": True}, {"name": "rename", "quick": 1500, "thorough": 75000}],
+        "oracle": oracle_c07x,
         "nontrivial": lambda c, a: a.startswith("ok") or a.startswith("err"),
         "rule": "accepted packets (4 layouts) x 2 (target, source, mode): sources drawn from the packet's own name suffixes (matches at every depth), case variants, one-character near-misses, unrelated, names whose bytes end with the encoded source off a label boundary (rename-misaligned); targets incl. self and names that push the result past 255 bytes",
         "level": "proof",
@@ -631,7 +645,7 @@ PROPS = {
     },
     "C08": {
         "module": "DnsModel.Theorems.C08Seq", "theorems": ["Dns.C08.run_total", "Dns.C08.step_total", "Dns.C08.run_inv", "Dns.C08.step_inv", "Dns.C08.inv_start", "Dns.C08.consistent_view", "Dns.C08.consistent_counts", "Dns.C08.after_decompression", "Dns.C08.recompute_consistent", "Dns.C08.iter_uncompress_consistent", "Dns.C08.first_touch_consistent", "Dns.C08.insert_answer_consistent", "Dns.C08.insert_authority_consistent", "Dns.C08.insert_additional_consistent", "Dns.C08.delete_consistent", "Dns.C08.set_ttl_consistent", "Dns.C08.set_ip_consistent", "Dns.C08.set_name_consistent", "Dns.C08.header_consistent", "Dns.C08.rename_fresh", "Dns.C08.question_read", "Dns.C08.PlainObj.pointerFree", "Dns.EdnsOK.matches_parse", "Dns.PlainObj.parse_info", "Dns.ednsOf_of_run", "Dns.ednsOK_replace", "Dns.ednsOK_remove", "Dns.ednsOK_remove_opt"],
-        "families": [{"name": "script-boundary", "quick": 0, "thorough": 0, "fixed": True}, {"name": "script", "quick": 2500, "thorough": 100000}],
+        "families": [{"name": "script-boundary", "quick": 0, "thorough": 0, "fixed": True}, {"name": "rename-script", "quick": 0, "thorough": 0, "fixed": True}, {"name": "script", "quick": 2500, "thorough": 100000}],
         "oracle": oracle_c08, "nontrivial": nontrivial_script, "shrink": False,
         "rule": "scripts of 1-6 macro operations (open/advance/act/observe/advance, header setters, text insertion, question insertion, rename, recompute, cache reads) over accepted packets in 4 layouts with/without OPT and over empty(); state observed after every operation; non-trivial = distinct scripts with at least one successful mutating operation",
         "level": "proof",
